@@ -49,6 +49,7 @@ def sProtocol : List Nat := [112, 114, 111, 116, 111, 99, 111, 108] -- protocol
 def sCONNECT : List Nat := [67, 79, 78, 78, 69, 67, 84]            -- CONNECT
 def sHttp : List Nat := [104, 116, 116, 112]                       -- http
 def sHttps : List Nat := [104, 116, 116, 112, 115]                 -- https
+def sHEAD : List Nat := [72, 69, 65, 68]                           -- HEAD
 
 /-! ### 1. request classification -/
 
@@ -63,6 +64,25 @@ deriving DecidableEq, Repr, Inhabited
 def wireInvalid (fs : List Field) : Bool :=
   let st := fs.foldl metaEmit { remainSize := 1099511627776 }
   st.invalid || !checkPseudos st.fields
+
+/-- index of the first field at which the emit callback of `readMetaFrame` sets `invalid`. -/
+def firstInvalidFrom : List Field → MetaState → Nat → Option Nat
+  | [], _, _ => none
+  | f :: rest, st, i =>
+    let st' := metaEmit st f
+    if st'.invalid then some i else firstInvalidFrom rest st' (i + 1)
+
+def firstInvalid (fs : List Field) : Option Nat :=
+  firstInvalidFrom fs { remainSize := 1099511627776 } 0
+
+/-- The block is sent as HEADERS + `ncont` CONTINUATION frames, fragment `i` carrying the fields
+`[i*n/(ncont+1), (i+1)*n/(ncont+1))`. `readMetaFrame` turns an invalid field into a CONNECTION
+error when another fragment follows the one that completed it ("close the connection after any
+CONTINUATION frame following an invalid header"). -/
+def invalidBeforeLastFragment (fs : List Field) (ncont : Nat) : Bool :=
+  match firstInvalid fs with
+  | some i => decide (i < ncont * fs.length / (ncont + 1))
+  | none => false
 
 /-- `MetaHeadersFrame.PseudoValue(pseudo)`. -/
 def pseudoValue (p : List Nat) : List Field → List Nat
@@ -132,9 +152,11 @@ def hasDupIds : List (Nat × Nat) → Bool
   | [] => false
   | p :: rest => rest.any (fun q => q.1 == p.1) || hasDupIds rest
 
-/-- verdict of a whole non-ACK SETTINGS frame in `processSettings`. -/
+/-- verdict of a whole non-ACK SETTINGS frame: `parseSettingsFrame`, then `processSettings`. -/
 def settingsVerdict (ps : List (Nat × Nat)) : Nat :=
-  if ps.length > 100 ∨ hasDupIds ps then 1
+  -- parseSettingsFrame: the first SETTINGS_INITIAL_WINDOW_SIZE value is range-checked by the framer
+  if (match ps.find? (fun p => p.1 == 4) with | some p => decide (p.2 > 2147483647) | none => false) then 3
+  else if ps.length > 100 ∨ hasDupIds ps then 1
   else match ps.find? (fun p => settingVerdict p.1 p.2 != 0) with
     | some p => settingVerdict p.1 p.2
     | none => 0
@@ -191,6 +213,7 @@ def Sched.done (s : Sched) (live : Nat → Bool) : Sched × List QEntry :=
 structure Strm where
   sid : Nat
   remoteClosed : Bool        -- stateHalfClosedRemote
+  head : Bool := false       -- the request method is HEAD: the response HEADERS carry END_STREAM
 deriving DecidableEq, Repr, Inhabited
 
 /-- What the server is predicted to put on the wire / start, per step. -/
@@ -277,8 +300,9 @@ def Srv.schedule (s : Srv) (sid : Nat) (k : HKind) : Srv × List Out :=
   | (_, .tooMany) => s.connError 11
 
 /-- `processHeaders` (and the framer's stream error for a malformed block). -/
-def Srv.onHeaders (s : Srv) (sid : Nat) (es : Bool) (cls : ReqClass) (hasPseudo : Bool) : Srv × List Out :=
-  if cls = .mw then
+def Srv.onHeaders (s : Srv) (sid : Nat) (es : Bool) (cls : ReqClass) (hasPseudo : Bool) (head : Bool := false) (early : Bool := false) : Srv × List Out :=
+  if cls = .mw ∧ early then s.connError 1
+  else if cls = .mw then
     -- StreamError from ReadFrame: resetStream; an existing stream is closed once the RST is written
     (s.closeStream sid, [.rst sid 1])
   else if s.graceful ∧ sid > s.maxSid then (s, [])
@@ -296,7 +320,7 @@ def Srv.onHeaders (s : Srv) (sid : Nat) (es : Bool) (cls : ReqClass) (hasPseudo 
           (s1, [.rst sid (if s1.unacked = 0 then 1 else 7)])
         else if cls = .mp then (s1, [.rst sid 1])   -- newStream, error from newWriterAndRequest, RST closes it
         else
-          let s2 : Srv := { s1 with streams := s1.streams ++ [(⟨sid, es⟩ : Strm)] }
+          let s2 : Srv := { s1 with streams := s1.streams ++ [(⟨sid, es, head⟩ : Strm)] }
           s2.schedule sid (if cls = ReqClass.ok then HKind.user else HKind.internal)
 
 def Srv.onRst (s : Srv) (sid : Nat) : Srv × List Out :=
@@ -340,9 +364,17 @@ def Srv.onHandlerExit (s : Srv) (sid : Nat) (panicked : Bool) : Srv × List Out 
     let (s', o') := (s.closeStream sid).handlerDone
     (s', o ++ o')
 
+/-- a user handler wrote / flushed: for a HEAD request the response HEADERS end the stream
+(`isHeadResp`), which closes it (after RST_STREAM(NO_ERROR) if the client has not ended it). -/
+def Srv.onHandlerWrite (s : Srv) (sid : Nat) : Srv × List Out :=
+  match s.findStream sid with
+  | some st => if st.head then (s.closeStream sid, if st.remoteClosed then [] else [.rst sid 0]) else (s, [])
+  | none => (s, [])
+
 /-- client-side events the accounting reacts to -/
 inductive In where
-  | headers (sid : Nat) (es : Bool) (cls : ReqClass) (hasPseudo : Bool)
+  | headers (sid : Nat) (es : Bool) (cls : ReqClass) (hasPseudo : Bool) (head : Bool) (early : Bool)
+  | handlerWrite (sid : Nat)
   | data (sid : Nat) (es : Bool)
   | rst (sid : Nat)
   | ping (d : Nat)
@@ -362,7 +394,8 @@ def Srv.armTimer (s : Srv) : Srv :=
     { s with shutdownIn := some goAwayTimeoutTestMs } else s
 
 def Srv.stepCore (s : Srv) : In → Srv × List Out
-  | .headers sid es cls hp => if s.dead then (s, []) else s.onHeaders sid es cls hp
+  | .headers sid es cls hp hd early => if s.dead then (s, []) else s.onHeaders sid es cls hp hd early
+  | .handlerWrite sid => s.onHandlerWrite sid
   | .data sid es => if s.dead then (s, []) else s.onData sid es
   | .rst sid => if s.dead then (s, []) else s.onRst sid
   | .ping d => if s.dead then (s, []) else (s, [.pingAck d])
